@@ -442,8 +442,9 @@ pub fn check(args: &[String]) -> i32 {
         // known findings are not minimised again on every run (keeps quick runs quick)
         let minimised = if is_known.is_some() || min_t0.elapsed().as_secs() > 90 { spec.clone() } else { minimise(&spec, class, 400, 15) };
         let path = write_replay(&prop, class, &minimised, detail);
-        // a violation must reproduce from its replay file in a fresh process, twice
-        let ok = confirm_replay(&path, class) && confirm_replay(&path, class);
+        // a violation must reproduce from its replay file in a fresh process: one records the
+        // trace digest of the canonical execution, two more confirm it
+        let ok = record_replay(&path, class) && confirm_replay(&path, class) && confirm_replay(&path, class);
         if !ok {
             println!("HARNESS-ERROR violation class {class} did not reproduce from {path} in a fresh process");
             harness_fail = true;
@@ -630,8 +631,8 @@ fn write_replay(prop: &str, class: &str, spec: &RunSpec, detail: &str) -> String
     let dir = format!("{}/{prop}", std::env::var("VERIF_REPLAY_DIR").unwrap_or_else(|_| "/verif/replays".into()));
     let _ = std::fs::create_dir_all(&dir);
     let path = format!("{dir}/{}.json", simcore::digest_str(class));
-    // expected digest of the replay
-    let digest = run_spec(spec, false).trace_digest;
+    // the digest is recorded by a fresh process (see `record_replay`)
+    let digest = String::new();
     let v = json!({
         "property": prop,
         "engine": "E-LS/1",
@@ -642,6 +643,14 @@ fn write_replay(prop: &str, class: &str, spec: &RunSpec, detail: &str) -> String
     });
     std::fs::write(&path, serde_json::to_string_pretty(&v).unwrap()).expect("write replay");
     path
+}
+
+fn record_replay(path: &str, class: &str) -> bool {
+    let exe = std::env::current_exe().expect("exe");
+    match std::process::Command::new(exe).args(["replay", "--file", path, "--quiet", "--record"]).output() {
+        Ok(o) => String::from_utf8_lossy(&o.stdout).lines().any(|l| l.starts_with("REPLAY-RECORDED") && l.contains(&format!("class={class}"))),
+        Err(_) => false,
+    }
 }
 
 fn confirm_replay(path: &str, class: &str) -> bool {
@@ -673,6 +682,17 @@ pub fn replay_cmd(args: &[String]) -> i32 {
     if let Some(e) = &r.error {
         println!("HARNESS-ERROR {e}");
         return 2;
+    }
+    if args.iter().any(|a| a == "--record") {
+        if r.has(&class) {
+            let mut doc = v.clone();
+            doc["trace_digest"] = Value::from(r.trace_digest.clone());
+            std::fs::write(&file, serde_json::to_string_pretty(&doc).unwrap()).expect("write replay");
+            println!("REPLAY-RECORDED class={class} digest={}", r.trace_digest);
+            return 1;
+        }
+        println!("REPLAY-CLEAN recorded class {class} not reproduced");
+        return 0;
     }
     let same_class = r.has(&class);
     let same_digest = r.trace_digest == want_digest;
